@@ -30,6 +30,9 @@ for k, k1 in ((0, 0), (1, 0), (2, 1), (2, 0)):
     fam('wmerge-%d+%d' % (k1, k - k1), 'h_wmerge', K=k, K1=k1, w=6)
 for k in (1, 2, 3):
     fam('summarize-k%d' % k, 'h_summarize', K=k, w=3)
+# weighted central moment sums against their definitions (sum of w (x - mean)^k), symbolic samples and weights
+fam('weighted-moment-sums-k2', 'h_weighted', K=2, MOMENTS=1, w=1)
+fam('weighted-moment-sums-k3', 'h_weighted', K=3, MOMENTS=1, w=8)
 # thorough
 fam('add-k5', 'h_add', tier='thorough', K=5, w=30)
 # shape-k5: z3 (NRA) leaves 36 branch queries undecided within the budget: not claimed
